@@ -29,8 +29,8 @@ type c14Case struct {
 	Elems2  [][]byte            `json:"elems2,omitempty"` // union: second set; filtered: elements the filter rejects
 	Reverse bool                `json:"reverse,omitempty"`
 	Steps   []c14Step           `json:"steps"`
-	Roles   map[string][]string `json:"roles,omitempty"`  // matching-*: id -> roles
-	Values  []string            `json:"values,omitempty"` // matching-*: requested roles
+	Roles   map[string][]string `json:"roles,omitempty"`   // matching-*: id -> roles
+	Values  []string            `json:"values,omitempty"`  // matching-*: requested roles
 	WriteTx bool                `json:"writeTx,omitempty"` // the cursors are opened inside a writing transaction
 }
 
